@@ -154,6 +154,11 @@ func (a *AddrManager) checkPassword(passphrase []byte) error {
 		}
 		return nil
 	} else {
+		// the key derivation cannot tell a passphrase from the same passphrase followed
+		// by NUL bytes (HMAC pads its key with zeros): only a well-formed one can be right
+		if !ValidatePassphrase(passphrase) {
+			return ErrInvalidPassphrase
+		}
 		if err := a.masterKeyPriv.DeriveKey(&passphrase); err != nil {
 			if err == snacl.ErrInvalidPassword {
 				return ErrInvalidPassphrase
@@ -181,6 +186,9 @@ func unmarshalMasterPrivKey(masterPrivKey *snacl.SecretKey, privPass []byte, mas
 	err := masterPrivKey.Unmarshal(masterPrivParams)
 	if err != nil {
 		return err
+	}
+	if !ValidatePassphrase(privPass) {
+		return ErrInvalidPassphrase
 	}
 	err = masterPrivKey.DeriveKey(&privPass)
 	if err != nil {
